@@ -120,6 +120,27 @@ def directed_programs(N, M):
                 rebuild(ops, x, cap)
                 ops.append(('rszs', x, base + 2, i))
             progs.append(ops)
+    # copy / move assignment between containers of equal and of different inline capacity, destination shorter / longer than
+    # the source, with and without spare capacity: the constant-evaluation branches of copy_range / copy_n_return_in
+    # (element-wise std::copy_n / std::move instead of memcpy, move iterators unwrapped)
+    for kind in ('asc', 'asm', 'asri', 'asrm'):
+        for (x, y) in (('a', 'c'), ('c', 'a'), ('a', 'b')):
+            ops = []
+            for ssz in (0, 1, 3, 6):
+                for dsz in (0, 2, 5):
+                    for cap in (0, 8):
+                        ops.append(('clr', x)); ops.append(('stf', x))
+                        if cap:
+                            ops.append(('rsv', x, cap))
+                        for k in range(dsz):
+                            ops.append(('pb', x, 40 + k))
+                        ops.append(('clr', y))
+                        for k in range(ssz):
+                            ops.append(('pb', y, 70 + k))
+                        ops.append((kind, x, y))
+                        if kind in ('asm', 'asrm'):
+                            ops.append(('clr', y))
+            progs.append(ops)
     return progs
 
 
@@ -173,7 +194,11 @@ def cpp_of(ops, N, M, pid):
             L.append('  { auto it = %s.insert (%s.begin () + %d, %d, %s[%d]); mixin (h, static_cast<unsigned long long> (it - %s.begin ())); }' % (x, x, op[2], op[3], x, op[4], x))
         elif k == 'rszs':
             L.append('  %s.resize (%d, %s[%d]);' % (x, op[2], x, op[3]))
-        if k != 'asm':   # the contents of a moved-from source are unspecified: it is cleared by the next step before being observed
+        elif k == 'asri':
+            L.append('  %s.assign (%s.begin (), %s.end ());' % (x, op[2], op[2]))
+        elif k == 'asrm':
+            L.append('  %s.assign (std::make_move_iterator (%s.begin ()), std::make_move_iterator (%s.end ()));' % (x, op[2], op[2]))
+        if k not in ('asm', 'asrm'):   # the contents of a moved-from source are unspecified: it is cleared by the next step before being observed
             L.append('  observe (h, a, ta); observe (h, b, tb); observe (h, c, tc);')
     L.append('  return h;')
     L.append('}')
@@ -184,6 +209,7 @@ PRELUDE = r'''
 #include <gch/small_vector.hpp>
 #include <cstdio>
 #include <utility>
+#include <iterator>
 struct Lit   // a literal, non-trivially-copyable element type
 {
   int v;
@@ -260,6 +286,9 @@ def shadow_lines(ops):
         elif k == 'inss': lines.append('ins %s %d s%d' % (x, op[2], op[3])); l.insert(op[2], l[op[3]])
         elif k == 'insns': lines.append('insn %s %d %d s%d' % (x, op[2], op[3], op[4])); l[op[2]:op[2]] = [l[op[4]]] * op[3]
         elif k == 'rszs': lines.append('rszv %s %d s%d' % (x, op[2], op[3])); st[x] = (l + [l[op[3]]] * op[2])[:op[2]]
+        elif k in ('asri', 'asrm'):
+            src = list(st[op[2]])
+            lines.append('asr %s ra %s' % (x, ','.join(str(v) for v in src) or '-')); st[x] = src
     return lines
 
 
@@ -295,8 +324,8 @@ def model_digest(ops, N, M):
             taint[x] = False
         if k in ('asm', 'swp'):
             taint[x] = True; taint[op[2]] = True
-        if k == 'asm':
-            continue
+        if k in ('asm', 'asrm'):
+            continue     # the source's elements are moved-from: unspecified, cleared by the next step before being observed
         for n in NAMES:
             sz, cap, vs = state[n]
             h = mix(h, sz)
